@@ -41,10 +41,14 @@ def kind? : Sexp → Option Kind
   | .atom "pure" => some .pure
   | .atom "proxy" => some .proxy
   | .atom "plain" => some .plain
+  | .atom "dedup" => some .dedup
   | _ => none
 
 def call? : Sexp → Option Call
   | .list [k, a, l] => do some { kind := (← kind? k), afn := (← a.bool?), label := (← l.nat?) }
+  -- 4th component: variant of the declaration; bit 0 = declared with `sync_fn=` (the other bits - classmethod / staticmethod /
+  -- @deduplicate() - select access paths that the model does not distinguish)
+  | .list [k, a, l, v] => do some { kind := (← kind? k), afn := (← a.bool?), label := (← l.nat?), sfn := (← v.nat?) % 2 == 1 }
   | _ => none
 
 def toYsL : List Ys → YsL
@@ -99,6 +103,7 @@ def ev (s : Sexp) : Ev :=
     | .list [.atom "fin", t, o] => do some (.fin (← t.nat?) (← out? o))
     | .list [.atom "afn", t] => t.nat?.map .afn
     | .list [.atom "syncX", t, o] => do some (.syncX (← t.nat?) (← out? o))
+    | .list [.atom "sfn", t] => t.nat?.map .sfn
     | _ => none
   r.getD (.bad (toString s))
 
